@@ -307,6 +307,11 @@ class ProcessCapabilityExchange():
         self.checklist_mandatory_avps = 0
         self.checklist_optional_avps = 0
         self.checklist_error_avps = 0
+        #: The peer is identified by exactly one valid Origin-Host and one 
+        #: valid Origin-Realm AVP: the overall count alone would let another 
+        #: repeated AVP make up for an identity AVP that did not count.
+        self.checklist_origin_host_avps = 0
+        self.checklist_origin_realm_avps = 0
         self.is_valid = False
 
         if message.header.flags == FLAG_REQUEST:
@@ -318,13 +323,20 @@ class ProcessCapabilityExchange():
             pass
 
 
+    def is_peer_identified(self):
+        return self.checklist_origin_host_avps == 1 and \
+               self.checklist_origin_realm_avps == 1
+
+
     def process_request(self):
         for avp in self.message.avps:
             if ProcessDiameterMessage.is_valid_origin_host_avp(avp, self.connection):
                 self.checklist_mandatory_avps += 1
+                self.checklist_origin_host_avps += 1
 
             elif ProcessDiameterMessage.is_valid_origin_realm_avp(avp, self.connection):
                 self.checklist_mandatory_avps += 1
+                self.checklist_origin_realm_avps += 1
 
             elif ProcessDiameterMessage.is_valid_host_ip_address_avp(avp, self.connection):
                 self.checklist_mandatory_avps += 1
@@ -339,7 +351,7 @@ class ProcessCapabilityExchange():
                 self.checklist_optional_avps += 1
 
 
-        if (self.checklist_mandatory_avps == 5) and (self.checklist_optional_avps >= 0 and self.checklist_optional_avps <= 7):
+        if (self.checklist_mandatory_avps == 5) and (self.checklist_optional_avps >= 0 and self.checklist_optional_avps <= 7) and self.is_peer_identified():
             self.is_valid = True
         else:
             self.is_valid = False
@@ -353,9 +365,11 @@ class ProcessCapabilityExchange():
 
             if ProcessDiameterMessage.is_valid_origin_host_avp(avp, self.connection):
                 self.checklist_mandatory_avps += 1
+                self.checklist_origin_host_avps += 1
 
             elif ProcessDiameterMessage.is_valid_origin_realm_avp(avp, self.connection):
                 self.checklist_mandatory_avps += 1
+                self.checklist_origin_realm_avps += 1
 
             elif ProcessDiameterMessage.is_valid_host_ip_address_avp(avp, self.connection):
                 self.checklist_mandatory_avps += 1
@@ -370,7 +384,7 @@ class ProcessCapabilityExchange():
                 self.checklist_optional_avps += 1
 
 
-        if (self.checklist_mandatory_avps == 6) and (self.checklist_optional_avps >= 0 or self.checklist_optional_avps <= 7):
+        if (self.checklist_mandatory_avps == 6) and (self.checklist_optional_avps >= 0 or self.checklist_optional_avps <= 7) and self.is_peer_identified():
             self.is_valid = True
         else:
             self.is_valid = False
@@ -385,6 +399,11 @@ class ProcessDeviceWatchdog():
         self.checklist_mandatory_avps = 0
         self.checklist_optional_avps = 0
         self.checklist_error_avps = 0
+        #: The peer is identified by exactly one valid Origin-Host and one 
+        #: valid Origin-Realm AVP: the overall count alone would let another 
+        #: repeated AVP make up for an identity AVP that did not count.
+        self.checklist_origin_host_avps = 0
+        self.checklist_origin_realm_avps = 0
         self.is_valid = False
 
         if message.header.flags == FLAG_REQUEST:
@@ -396,19 +415,26 @@ class ProcessDeviceWatchdog():
             pass
 
 
+    def is_peer_identified(self):
+        return self.checklist_origin_host_avps == 1 and \
+               self.checklist_origin_realm_avps == 1
+
+
     def process_request(self):
         for avp in self.message.avps:
             if ProcessDiameterMessage.is_valid_origin_host_avp(avp, self.connection):
                 self.checklist_mandatory_avps += 1
+                self.checklist_origin_host_avps += 1
 
             elif ProcessDiameterMessage.is_valid_origin_realm_avp(avp, self.connection):
                 self.checklist_mandatory_avps += 1
+                self.checklist_origin_realm_avps += 1
 
             elif ProcessDiameterMessage.is_valid_origin_state_id_avp(avp, self.connection):
                 self.checklist_optional_avps += 1
 
 
-        if (self.checklist_mandatory_avps == 2) and (self.checklist_optional_avps == 0 or self.checklist_optional_avps == 1):
+        if (self.checklist_mandatory_avps == 2) and (self.checklist_optional_avps == 0 or self.checklist_optional_avps == 1) and self.is_peer_identified():
             self.is_valid = True
         else:
             self.is_valid = False
@@ -423,15 +449,17 @@ class ProcessDeviceWatchdog():
 
             if ProcessDiameterMessage.is_valid_origin_host_avp(avp, self.connection):
                 self.checklist_mandatory_avps += 1
+                self.checklist_origin_host_avps += 1
 
             elif ProcessDiameterMessage.is_valid_origin_realm_avp(avp, self.connection):
                 self.checklist_mandatory_avps += 1
+                self.checklist_origin_realm_avps += 1
 
             elif ProcessDiameterMessage.is_valid_origin_state_id_avp(avp, self.connection):
                 self.checklist_optional_avps += 1
 
 
-        if (self.checklist_mandatory_avps == 3) and (self.checklist_optional_avps == 0 or self.checklist_optional_avps == 1):
+        if (self.checklist_mandatory_avps == 3) and (self.checklist_optional_avps == 0 or self.checklist_optional_avps == 1) and self.is_peer_identified():
             self.is_valid = True
         else:
             self.is_valid = False
@@ -446,6 +474,11 @@ class ProcessDisconnectPeer():
         self.checklist_mandatory_avps = 0
         self.checklist_optional_avps = 0
         self.checklist_error_avps = 0
+        #: The peer is identified by exactly one valid Origin-Host and one 
+        #: valid Origin-Realm AVP: the overall count alone would let another 
+        #: repeated AVP make up for an identity AVP that did not count.
+        self.checklist_origin_host_avps = 0
+        self.checklist_origin_realm_avps = 0
         self.is_valid = False
 
         if message.header.flags == FLAG_REQUEST:
@@ -457,19 +490,26 @@ class ProcessDisconnectPeer():
             pass
 
 
+    def is_peer_identified(self):
+        return self.checklist_origin_host_avps == 1 and \
+               self.checklist_origin_realm_avps == 1
+
+
     def process_request(self):
         for avp in self.message.avps:
             if ProcessDiameterMessage.is_valid_origin_host_avp(avp, self.connection):
                 self.checklist_mandatory_avps += 1
+                self.checklist_origin_host_avps += 1
 
             elif ProcessDiameterMessage.is_valid_origin_realm_avp(avp, self.connection):
                 self.checklist_mandatory_avps += 1
+                self.checklist_origin_realm_avps += 1
 
             elif ProcessDiameterMessage.is_valid_disconnect_cause_avp(avp):
                 self.checklist_mandatory_avps += 1
 
 
-        if (self.checklist_mandatory_avps == 3):
+        if (self.checklist_mandatory_avps == 3) and self.is_peer_identified():
             self.is_valid = True
         else:
             self.is_valid = False
@@ -484,12 +524,14 @@ class ProcessDisconnectPeer():
 
             if ProcessDiameterMessage.is_valid_origin_host_avp(avp, self.connection):
                 self.checklist_mandatory_avps += 1
+                self.checklist_origin_host_avps += 1
 
             elif ProcessDiameterMessage.is_valid_origin_realm_avp(avp, self.connection):
                 self.checklist_mandatory_avps += 1
+                self.checklist_origin_realm_avps += 1
 
 
-        if (self.checklist_mandatory_avps == 3) and (self.checklist_error_avps >= 0 and self.checklist_error_avps <= 2):
+        if (self.checklist_mandatory_avps == 3) and (self.checklist_error_avps >= 0 and self.checklist_error_avps <= 2) and self.is_peer_identified():
             self.is_valid = True
         else:
             self.is_valid = False
